@@ -11,7 +11,7 @@ def handleLine (line : String) : String :=
     let n := m.toNat!
     -- bit order of the harness: no-vcs, no-project, no-global, no-default, no-discover, ignore-nothing
     let f : Flags := ⟨n.testBit 0, n.testBit 1, n.testBit 2, n.testBit 3, n.testBit 4, n.testBit 5⟩
-    let o := configure ⟨true, gc == "1"⟩ f
+    let o := configure ⟨true, gc == "1", gc != "3"⟩ f
     let has (s : Src) := o.igfiles.contains s
     let ex := explicitHonoured o.igfiles
     let a := s!"gg:{v (has .globalVcs)} ga:{v (has .globalPlain)} pv:{v (has .projectVcs)} pg:{v (has .projectPlain)} gc:{v (has .gitConfigExcludes)} ex:{v ex} pyc:{v o.defaultIgnores} ip:{v o.ignorePatterns} ok:pass"
